@@ -49,8 +49,7 @@ FLOORS = {
         "T4": 2,
         "DL1": 1,
         "L6": 1,
-        "F1": 1,
-        "DL3": 1
+        "F1": 1
     },
     "C09": {
         "E1": 8,
@@ -67,8 +66,7 @@ FLOORS = {
         "IDX": 4,
         "M2": 16,
         "M3": 26,
-        "I12": 20,
-        "DL3": 1
+        "I12": 20
     },
     "C12": {
         "R1": 28,
@@ -101,7 +99,9 @@ FLOORS = {
         "CU1": 4,
         "CU3": 24,
         "CU4": 1,
-        "BW1": 6
+        "BW1": 6,
+        "LP1": 30,
+        "LP2": 1
     },
     "C18": {
         "H1": 2,
@@ -533,6 +533,9 @@ def c17(prog, rep):
     BW.rule_bw1(prog, rep, PARSER_UNITS)
     from . import own as O
     O.rule_m6(prog, rep, PARSER_UNITS)
+    from . import looprules as LP
+    LP.rule_lp1(prog, rep, PARSER_UNITS)
+    LP.rule_lp2(prog, rep, PARSER_UNITS)
     from . import configrules as CR
     clf = CR.find_bool_classifier(prog)
     rep.rule('CU5', 'the word classifier whose acceptance lets the parser overwrite the word in place ("1"/"0") compares whole words '
